@@ -147,6 +147,73 @@ func (c01) held(n int) string {
 	return fmt.Sprintf("early=%d all=%d", early, all)
 }
 
+// c01.prefix <cut>   one write carries a complete GET and the first <cut> bytes of a second one; the client waits for the first reply
+// before it sends the rest (the backends answer at once).  -> early=<replies read before the rest was sent> all=<replies in the end>
+func (c01) prefix(cut int) string {
+	rig := c01Rig()
+	defer hx.DropScopes(rig.ScopeName())
+	ln, err := net.Listen("tcp", "127.0.0.1:0")
+	if err != nil {
+		return "sockerr"
+	}
+	defer ln.Close()
+	go func() {
+		for {
+			c, err := ln.Accept()
+			if err != nil {
+				return
+			}
+			go rig.ServeConn(c)
+		}
+	}()
+	stop := make(chan struct{})
+	defer close(stop)
+	go func() {
+		for {
+			select {
+			case <-stop:
+				return
+			default:
+			}
+			for _, s := range rig.Drain() {
+				s.Reply(&redis.RespValue{Type: redis.BulkString, Text: []byte("v")})
+			}
+			time.Sleep(200 * time.Microsecond)
+		}
+	}()
+	c, err := net.DialTimeout("tcp", ln.Addr().String(), time.Second)
+	if err != nil {
+		return "sockerr"
+	}
+	defer c.Close()
+	first := hx.Wire(hx.Bulks([]byte("get"), []byte("prefix-1")))
+	second := hx.Wire(hx.Bulks([]byte("get"), []byte("prefix-2")))
+	if cut < 1 || cut >= len(second) {
+		return "bad-op"
+	}
+	c.Write(append(append([]byte{}, first...), second[:cut]...))
+	count := func(d time.Duration) int {
+		// replies are "$1\r\nv\r\n": seven bytes each
+		got := 0
+		buf := make([]byte, 64)
+		c.SetReadDeadline(time.Now().Add(d))
+		for {
+			n, err := c.Read(buf)
+			got += n
+			if err != nil || got%7 == 0 && got > 0 {
+				return got / 7
+			}
+		}
+	}
+	early := count(600 * time.Millisecond)
+	c.Write(second[cut:])
+	all := early
+	if early < 2 {
+		all += count(600 * time.Millisecond)
+	}
+	return fmt.Sprintf("early=%d all=%d", early, all)
+}
+
 // c01.half <n>   one connection writes n GETs and then finishes its own direction (shutdown of the write side, as `printf … | nc` does); the
 // backends answer at once.  -> replies=<replies read before end-of-stream>
 func (c01) half(n int) string {
@@ -546,6 +613,13 @@ func (c01) client(n, chunk int, seed int64, kind string) string {
 }
 
 func (c c01) Exec(op string) string {
+	if f := hx.Fields(op); len(f) == 2 && f[0] == "c01.prefix" {
+		n, err := strconv.Atoi(f[1])
+		if err != nil {
+			return "bad-op"
+		}
+		return recoverStr(func() string { return c.prefix(n) })
+	}
 	if f := hx.Fields(op); len(f) == 2 && f[0] == "c01.half" {
 		n, err := strconv.Atoi(f[1])
 		if err != nil || n < 1 || n > 200 {
@@ -593,6 +667,10 @@ func (c c01) Gen(r *hx.Run) {
 	}
 	for _, b := range basic {
 		r.Do("c01.pipe "+b, true, "basic")
+	}
+	// a complete request followed by a strict prefix of the next one in one read: its reply does not wait for the rest
+	for _, cut := range []int{1, 4, 1 + rng.Intn(26), 26} {
+		r.Do(fmt.Sprintf("c01.prefix %d", cut), true, "prefix-of-the-next-request")
 	}
 	// finished replies do not wait for a later request's silent node
 	for _, n := range []int{1, 3, 1 + rng.Intn(40)} {
